@@ -4,7 +4,10 @@
 //!   vharness run [--oracle <file>]               -> reads case lines on stdin, one response line each;
 //!                                                   oracle failures go to <file> as `lineno\tproperty\tmessage`
 //!   vharness tabulate types|fullwidth            -> translator input (exhaustive tabulation)
+mod gen_pred;
 mod gen_sent;
+mod model;
+mod pred;
 mod sent;
 mod tabulate;
 mod util;
@@ -22,6 +25,7 @@ fn main() {
             let mut out = std::io::BufWriter::new(out.lock());
             let thorough = tier == "thorough";
             match family.as_str() {
+                "C01" => gen_pred::gen_c01(&mut out, thorough, seed),
                 "C02" => gen_sent::gen_c02(&mut out, thorough, seed),
                 "C03" => gen_sent::gen_c03(&mut out, thorough, seed),
                 "C04" => gen_sent::gen_c04(&mut out, thorough, seed),
@@ -67,6 +71,8 @@ fn run_case(line: &str, fails: &mut Vec<(String, String)>) -> String {
     match toks.as_slice() {
         ["S", ops] => sent::run_sent(ops, "", fails),
         ["S", ops, oracle] => sent::run_sent(ops, oracle, fails),
+        ["H", cfg, preds, ops] => pred::run_h(cfg, preds, ops, "", fails),
+        ["H", cfg, preds, ops, oracle] => pred::run_h(cfg, preds, ops, oracle, fails),
         _ => "bad-case".into(),
     }
 }
